@@ -32,3 +32,4 @@ import RenetVerif.Props.SrcTieConnRecv
 import RenetVerif.Props.SrcTieServer
 import RenetVerif.Props.SrcTieNcCodec
 import RenetVerif.Props.SrcTieNcServerQuery
+import RenetVerif.Props.SrcTieNcServerSend
